@@ -11,3 +11,4 @@ import PMH.Props.C03
 #print axioms PMH.C03.smh2_collision_count_regs
 #print axioms PMH.C03.smh2_position_law
 #print axioms PMH.SMH2Coll.ex_collision_third
+#print axioms PMH.C03.mse_bound_of_nonpositive_correlation
